@@ -3,10 +3,10 @@ import GomlVerif.Driver.C10
 import GomlVerif.Driver.C12
 import GomlVerif.Driver.C15
 import GomlVerif.Driver.SemRun
+import GomlVerif.Driver.GoCheckRun
 import GomlVerif.Driver.C11
 import GomlVerif.Driver.C19
 import GomlVerif.Driver.C13
-import GomlVerif.Driver.C15
 import GomlVerif.Driver.C16
 
 def main (args : List String) : IO UInt32 := do
@@ -16,10 +16,10 @@ def main (args : List String) : IO UInt32 := do
   | ["c12"] => Goml.Driver.C12.main; return 0
   | ["c15"] => Goml.Driver.C15.main; return 0
   | ["sem"] => Goml.Driver.SemRun.main; return 0
+  | ["gocheck"] => Goml.Driver.GoCheckRun.main; return 0
   | ["c11"] => Goml.Driver.C11.main; return 0
   | ["c17"] => Goml.Driver.C19.main; return 0
   | ["c19"] => Goml.Driver.C19.main; return 0
   | ["c13"] => Goml.Driver.C13.main; return 0
-  | ["c15"] => Goml.Driver.C15.main; return 0
   | ["c16"] => Goml.Driver.C16.main; return 0
   | _ => IO.eprintln "usage: gomlmodel <c05|…> < lines"; return 2
